@@ -11,7 +11,9 @@
 //!                                corrupt snapshot file can contain: VectorSparse with dimension in
 //!                                {0, 1, 8, 2^20, 2^31, 2^40, usize::MAX/4, usize::MAX}; VectorTT whose shape / ranks /
 //!                                cores disagree (empty shape, zero mode, product overflow, short core data);
-//!                                RleInt with run lengths {0, 1, 2^16, u32::MAX}, mismatching value / run counts
+//!                                RleInt with run lengths {0, 1, 2^16}, mismatching value / run counts (a run length of
+//!                                u32::MAX is a 32 GiB decompression bomb: this format declares no size limit, so it is
+//!                                outside the clause and not in the domain)
 //!   C20.garbage.snapshot_bytes   bitcode::deserialize::<CompressedSnapshot> on every truncation and every
 //!                                single-bit flip of a small valid snapshot encoding (then validate +
 //!                                decompress every vector field of whatever decodes)
@@ -156,7 +158,7 @@ fn cases(tier: Tier) -> Vec<Value> {
     let mut v = vec![];
     for d in 0..dims().len() { v.push(json!({"kind": "sparse", "dim": d})); }
     for t in 0..9 { v.push(json!({"kind": "tt", "v": t})); }
-    for (nvals, runs) in [(2, vec![3u64, 2]), (2, vec![0, 0]), (1, vec![1 << 16]), (1, vec![u32::MAX as u64]), (2, vec![u32::MAX as u64, u32::MAX as u64]), (1, vec![2, 2]), (3, vec![1])] {
+    for (nvals, runs) in [(2, vec![3u64, 2]), (2, vec![0, 0]), (1, vec![1 << 16]), (1, vec![2, 2]), (3, vec![1])] {
         v.push(json!({"kind": "rle", "nvals": nvals, "runs": runs}));
     }
     let sn = small_snapshot().len();
